@@ -127,6 +127,15 @@ def deductive(rep, tier, jobs):
     # are postconditions of the kernels: discharged here as well, with the bounded replay as witness
     from props import C12 as c12
 
+    # row-wise evaluation itself: the column of a scalar rule is numpy.vectorize(rule, otypes=[declared])
+    # -- no dtype inferred from whichever row comes first, nothing cached across functions (C03's contract)
+    from props import C03 as c03
+
+    mode, detail, vfails = c03.vectorize_contract()
+    vname = "V _vectorize_func: the function passed in, otypes from the declared type (type objects and strings), pass-through wrapper"
+    rep.ob(vname, "discharged" if mode == "B" else "refuted" if (vfails or mode == "A") else "unsupported", "recording-stub", 0, "src/_gettsim/functions_loader.py _vectorize_func", "contract", detail)
+    if vfails or mode == "A":
+        rep.violation("vectorize-contract", f"_vectorize_func: {detail} -- the dtype of a column then depends on the row that happens to come first (another household's row can truncate a value)", {"obligation": vname, "failures": vfails, "mode": mode}, True)
     c12.recheck_kernel(rep, "bg_id_numpy", "KD", "derived ids of different families can collide or depend on other rows: the needs-unit contract (offset counted per family, below 100) does not hold")
     c12.recheck_kernel(rep, "wthh_id_numpy", "KD", "derived ids of different households can collide: the part-household contract does not hold")
     return lost
